@@ -25,6 +25,10 @@ pub struct ObjScenario {
     /// Storage faults between writer and reader, applied in order.
     pub disk: Vec<DiskFault>,
     pub reader: ReaderCfg,
+    /// Additionally run `load_obj` against the real file system, fault-free, and compare
+    /// it with `parse_obj` over the same bytes.
+    #[serde(default)]
+    pub via_path: bool,
 }
 
 /// What a decode produced, in comparable form.
@@ -650,7 +654,7 @@ pub fn gen_jumbo(seed: u64) -> (ObjScenario, &'static str, Option<String>) {
     if let RStack::Buf { cap, .. } | RStack::ChainBuf { cap, .. } = &mut reader.stack {
         *cap = (*cap).max(512);
     }
-    (ObjScenario { text: g.text, disk: vec![], reader }, "search:jumbo", self_check)
+    (ObjScenario { text: g.text, disk: vec![], reader, via_path: false }, "search:jumbo", self_check)
 }
 
 pub fn gen_scenario(seed: u64) -> (ObjScenario, &'static str, Option<String>) {
@@ -682,7 +686,8 @@ pub fn gen_scenario(seed: u64) -> (ObjScenario, &'static str, Option<String>) {
             add_reader_fault(&mut rng, &mut reader, len, &g.hot);
         }
     }
-    (ObjScenario { text: g.text, disk, reader }, kind, self_check)
+    let via_path = rng.chance(1, 40);
+    (ObjScenario { text: g.text, disk, reader, via_path }, kind, self_check)
 }
 
 // ---------------------------------------------------------------------------
@@ -906,6 +911,32 @@ pub fn run(scn: &ObjScenario, record: bool) -> RunResult {
         rr.probe("decoder returned Err");
     }
 
+    if scn.via_path {
+        // W: load_obj over a real file holding the same bytes == parse_obj over the bytes
+        if let (Some(path), Some(want)) = (crate::core::scratch_file("obj"), &base_out) {
+            rr.probe("path wrapper cross-checked on the real file system");
+            if std::fs::write(&path, &bytes).is_ok() {
+                match catch(|| re_geom::io::load_obj(&path)) {
+                    Err(c) => rr.violate(Violation::new("W", format!("load-{}", c.class()), format!("load_obj {}", c.detail()))),
+                    Ok(r) => {
+                        let got = observe(r, "load_obj", &mut RunResult::default());
+                        let d = diff(&got, want);
+                        rr.oracle("W", d == "equal");
+                        if d != "equal" {
+                            rr.violate(Violation::new("W", format!("load-{d}"), format!("load_obj(path) gave {} but parse_obj over the file's {} bytes gave {}", got.brief(), bytes.len(), want.brief())));
+                        }
+                    }
+                }
+            }
+            let _ = std::fs::remove_file(&path);
+            match catch(|| re_geom::io::load_obj(&path)) {
+                Ok(Err(_)) => rr.oracle("W", true),
+                Ok(Ok(_)) => rr.violate(Violation::new("W", "load-missing-ok", "load_obj of a missing file returned Ok")),
+                Err(c) => rr.violate(Violation::new("W", format!("load-missing-{}", c.class()), format!("load_obj of a missing file {}", c.detail()))),
+            }
+        }
+    }
+
     rr.benign_only = ledger.read_destructive() + ledger.storage_fired() == 0;
     rr.log_hash = {
         let mut h = log.borrow().hash;
@@ -1007,6 +1038,9 @@ pub fn shrink_reader(r: &ReaderCfg) -> Vec<ReaderCfg> {
 
 pub fn shrink(s: &ObjScenario) -> Vec<ObjScenario> {
     let mut out = vec![];
+    if s.via_path {
+        out.push(ObjScenario { via_path: false, ..s.clone() });
+    }
     for i in 0..s.disk.len() {
         let mut d = s.disk.clone();
         d.remove(i);
@@ -1030,7 +1064,7 @@ pub fn shrink(s: &ObjScenario) -> Vec<ObjScenario> {
             let (a, b) = (spans[i].0, spans[i + width - 1].1);
             let mut t = s.text[..a].to_vec();
             t.extend_from_slice(&s.text[b..]);
-            out.push(ObjScenario { text: t, disk: shift_faults(&s.disk, a, b), reader: shift_reader(&s.reader, a, b) });
+            out.push(ObjScenario { text: t, disk: shift_faults(&s.disk, a, b), reader: shift_reader(&s.reader, a, b), via_path: s.via_path });
             i += width;
         }
         if width == 1 {
@@ -1055,7 +1089,7 @@ pub fn shrink(s: &ObjScenario) -> Vec<ObjScenario> {
             let mut t = s.text[..a].to_vec();
             t.extend_from_slice(&squeezed);
             t.extend_from_slice(&s.text[b..]);
-            out.push(ObjScenario { text: t, disk: vec![], reader: s.reader.clone() });
+            out.push(ObjScenario { text: t, disk: vec![], reader: s.reader.clone(), via_path: s.via_path });
         }
     }
     out
@@ -1079,5 +1113,5 @@ pub fn sweep_base(seed: u64) -> crate::sweep::SweepBase {
 
 pub fn sweep_job(base: &crate::sweep::SweepBase, k: usize) -> (ObjScenario, &'static str) {
     let (disk, reader, kind) = base.job(k);
-    (ObjScenario { text: base.bytes.clone(), disk, reader }, kind)
+    (ObjScenario { text: base.bytes.clone(), disk, reader, via_path: false }, kind)
 }
